@@ -863,3 +863,31 @@ def r9(rr, repo):
             polled_only = False
     rr.ob('a source that is out of the poller (its set is complete) is still read for out-of-band messages while the join waits for the others', not polled_only or not unreg, za.mod, unreg[0] if unreg else za.R_once,
           witness=f'{len(unreg)} unregister site(s) for complete sources; sockets are read only when the poller reports them: {polled_only}', key='complete-source-exit-unheard')
+
+
+@rule('C08.R10', "the kind of exit that is announced is the kind that happened: Filter.run decides 'clean' or 'error' from the exception that actually passed through setup / the loop / shutdown - not from "
+                 "sys.exc_info() read in a finally, which, with nothing in flight there, is whatever exception the CALLER of run() is handling at that moment (run() called from an except block: a clean end "
+                 "announced as an error, or not announced at all)")
+def r10(rr, repo):
+    m = model(repo)
+    mod, run = m.mod, m.run
+    from ..model import ancestors as _anc
+    sets = [n for n in walk_scope(run) if isinstance(n, ast.Assign) and U(n.targets[0]) == 'is_exc']
+    rr.floor('decisions of the exit kind in Filter.run', len(sets), 1, mod, run)
+    for n in sets:
+        ambient = [c for c in ast.walk(n.value) if isinstance(c, ast.Call) and U(c.func) in ('sys.exc_info', 'exc_info', 'sys.exception')]
+        in_finally = any(isinstance(a, ast.Try) and any(n is x for f_ in a.finalbody for x in ast.walk(f_)) for a in _anc(n))
+        if ambient and in_finally:
+            rr.ob('the exit kind is not read from the ambient exception state in a finally', False, mod, n, witness=U(n)[:100], key='exit-kind-from-what-passed')
+            continue
+        names = [x.id for x in ast.walk(n.value) if isinstance(x, ast.Name) and x.id not in ('isinstance', 'Exception', 'BaseException')]
+        bound = [h for h in ast.walk(run) if isinstance(h, ast.ExceptHandler) and h.name and any(isinstance(a, ast.Assign) and U(a.targets[0]) in names and U(a.value) == h.name for a in h.body)]
+        reraises = [h for h in bound if any(isinstance(x, ast.Raise) and x.exc is None for x in h.body)]
+        wide = [h for h in reraises if h.type is None or U(h.type) == 'BaseException']
+        cleared = [a for a in walk_scope(run) if isinstance(a, ast.Assign) and U(a.targets[0]) in names and U(a.value) == 'None' and a.lineno < n.lineno]
+        if not ambient and wide and cleared:
+            rr.ob('the exit kind is not read from the ambient exception state in a finally', True, mod, n, witness=f'{U(n)[:80]}; bound in `except {U(wide[0].type) if wide[0].type else ""} as {wide[0].name}` and re-raised', key='exit-kind-from-what-passed')
+        elif ambient and not in_finally:
+            rr.ob('the exit kind is not read from the ambient exception state in a finally', True, mod, n, witness=f'{U(n)[:80]} (inside an except clause: the exception being handled is the one that passed)', key='exit-kind-from-what-passed')
+        else:
+            rr.unresolved('how Filter.run decides between a clean and an error exit was not recognised', mod, n, witness=U(n)[:100], key='exit-kind-from-what-passed')
